@@ -20,7 +20,7 @@
 (***************************************************************************)
 EXTENDS Integers, Sequences, FiniteSets, TLC
 
-Dirs == {"download", "upload"}
+Dirs == {"download", "upload"}    \* (and "emptyrpc", see JudgeEmptyRpc)
 Targets == {"connect", "grpc", "grpcweb"}
 Codecs == {"proto", "json"}
 CTs == {"", "text/plain; charset=utf-8", "application/octet-stream", "application/json"}
@@ -48,7 +48,15 @@ JudgeUpload(scn, o) ==
     \cup (IF o.nameok THEN {} ELSE {"C07.HttpBodyPathBound"})
     \cup (IF o.problems = <<>> THEN {} ELSE {"C03.Framable"})
 
+\* a request stream without the one message a server-streaming method takes cannot be expressed toward a REST
+\* backend (its request always is one message): nothing is dispatched, the client is told
+JudgeEmptyRpc(scn, o) ==
+    (IF o.n = 0 THEN {} ELSE {"C09.UnfinishedRequestDelivered", "C01.HttpBodyOneMessage"})
+    \cup (IF o.code # 0 THEN {} ELSE {"C09.FaultSurfacedAsSuccess"})
+
 Judge(o) ==
     (IF o.panic THEN {"C11.NoPanic"} ELSE {})
-    \cup (IF o.scn.dir = "download" THEN JudgeDownload(o.scn, o) ELSE JudgeUpload(o.scn, o))
+    \cup (CASE o.scn.dir = "download" -> JudgeDownload(o.scn, o)
+           [] o.scn.dir = "emptyrpc" -> JudgeEmptyRpc(o.scn, o)
+           [] OTHER -> JudgeUpload(o.scn, o))
 =============================================================================
